@@ -8,8 +8,40 @@ INITIALLY_MISSED = {  # seeded change -> what the check lacked (strengthening do
  "C07-2": "incremental-build histories (partial node inspected, then completed) added to C07",
  "C08-2": "universe with versions whose string and version order differ added to C08 sorted/multiplex modes",
  "C13-1": "C13 replay re-evaluates the whole configuration in the same order (order-dependent defect now reproduces)",
+ "C15-1": "two packages carrying the same blocker atom, one abandoned via an any-of fallback (family F5) added to C15",
+ "C15-2": "candidate refused at insertion with a lower fallback and a leftover dependency cycle (family F6) added to C15",
+ "C16-1": "multi-target inputs through ONE resolver (add_atoms, per-target add_atom, pmerge retry loop) with the fresh-resolver differential oracle; DEPEND-cycle universes (F7)",
+ "C16-2": "same; earlier-class success + later-class failure with a lower fallback version (F8)",
+ "C17-2": "blocker registered under a key different from its own (.key) added to the C17 event alphabet; limiters compared by key",
  "C18-1": "tolerated symlink-over-directory overlap: other entries judged in full; hardlink group split around such a symlink",
+ "C24-1": "write-fault plans (ENOSPC / KeyboardInterrupt raised from the n-th write after half the data) added to the C24/C27/C28/C30 sweeps",
+ "C25-1": "symlink whose name is a strict string prefix of a sibling name (/l1 vs /l10, /l1x/f) added to the C25 universe",
+ "C27-1": "crash_after plans (die right after the rename, before the buffer is flushed) added to the engine and the sweeps",
+ "C28-1": "files/ entries sharing a base name in different sub-directories added to the C28 permutation alphabet",
+ "C28-2": "write-fault plans (exception during write) added",
+ "C29-1": "vdb replace by a revision bump (pkg-1 -> pkg-1-r1 and back) scenarios added",
+ "C29-2": "binpkg same-version replace within the same integer mtime second added (Packages cache hit)",
+ "C30-2": "write-fault plans (exception during write) added",
+ "C32-1": "pre-existing image states (regular file / symlink / directory at the target) for the dir-creating and file-installing helpers",
+ "C32-2": "follow-up requests of recursive/symlink variants are themselves recursive and force the external fallback",
+ "C33-2": "install options combining special mode bits with -o/-g added",
+ "C34-1": "variable values dumped as $'...' that end in a backslash added",
+ "C34-2": "same name list applied in both modes in both orders within one process; replay repeats the dump's whole call sequence",
+ "C35-2": "daemon-side event 'nonfatal die -n' added to the model and the real-pair harness",
+ "C36-1": "exit status class 'killed by a signal' (N<<8) added to the outcome alphabet",
+ "C37-2": "two splittable axes whose count order and width order disagree; the judged axis is the documented (widest) one",
+ "C38-2": "trailing blanks/tabs after the comment on rewritten lines",
+ "C40-1": "repositories where a version carries a keyword absent from known_arches, requested via * and ^ (also exposed a genuine defect, fixed)",
+ "C41-2": "timer firing as a bounded deviation of blocking calls with a timeout (sched engine)",
+ "C43-2": "config-source histories: collapse, add_config_source, collapse again vs all sources up front",
  "C44-1": "names and glob tokens containing '.' and '+' in every glob position added to C44",
+ "C45-2": "C45 replay re-creates the whole advisory directory; slotted/unslotted ranges with equal (op, version) in one directory in both orders",
+ "C46-1": "repository variant with a USE-conditional fetch restriction",
+ "C47-1": "failing follow-up sync (404/truncated/corrupt) after each interruption, then a final good sync",
+ "C48-1": "two packages with the identical eclass set read through one tree instance with live package objects",
+ "C48-2": "ebuild content edit that keeps the mtime (md5 backend) in quick; runner no longer lets non-reproducing candidates mask reproducing ones",
+ "C49-1": "statements (unset-then-assign) after the nested inherit in the outer eclass and the 'inherit outer flat' shape",
+ "C49-2": "exclusion of the implicit RDEPEND=DEPEND rule (EAPI 0-3) lifted: PMS is explicit that eclass DEPEND never enters it",
 }
 for d in sorted(glob.glob("/verif/seeded/*/")):
     sid = os.path.basename(d.rstrip("/"))
